@@ -251,7 +251,7 @@ pub fn random_status(rng: &mut Rng) -> u16 {
         2 | 3 => *rng.pick(&[301u16, 302, 303, 307, 308, 300, 399]),
         4 => rng.usize_in(400, 599) as u16,
         5 => rng.usize_in(101, 999) as u16,
-        _ => *rng.pick(&[200u16, 200, 201, 206, 299]),
+        _ => *rng.pick(&[200u16, 200, 201, 205, 206, 299]),
     }
 }
 
@@ -313,6 +313,10 @@ pub fn random_req(rng: &mut Rng, body_max: usize) -> (ReqCfg, Vec<u8>) {
         if rng.chance(1, 3) {
             cfg.orig.push(("expect".into(), b"100-continue".to_vec()));
         }
+    } else if rng.chance(1, 12) {
+        // an expectation on a request that sends no body: nothing is awaited, the head is followed by the
+        // response, and a 100 the server sends anyway is passed over once
+        cfg.orig.push(("expect".into(), b"100-continue".to_vec()));
     }
     (cfg, body)
 }
@@ -440,6 +444,15 @@ pub fn gen_resp_head(rng: &mut Rng, nfields: usize, force_3xx_location: bool) ->
             head.fields[c].name = n1.to_ascii_uppercase();
             head.fields[c].value = v1.to_vec();
         }
+    }
+    if !force_3xx_location && (300..400).contains(&status) && nfields >= 2 && rng.chance(1, 2) {
+        // redirects mostly come with a Location, and now and then say keep-alive
+        let at = rng.usize_in(0, nfields - 1);
+        head.fields[at].name = (*rng.pick(&["Location", "location"])).to_string();
+        head.fields[at].value = b"/elsewhere".to_vec();
+        let other = (at + 1) % nfields;
+        head.fields[other].name = "Connection".into();
+        head.fields[other].value = b"keep-alive".to_vec();
     }
     if force_3xx_location && nfields >= 1 {
         // a Location somewhere, with more fields after it when there is room
